@@ -300,10 +300,10 @@ func (p c09) Run(c *core.Ctx) {
 	}
 }
 
-func countEvents(r *world.Run, kind string) int {
+func countEvents(r *world.Run, kind string, who ...string) int {
 	n := 0
 	for _, e := range r.Log.Events() {
-		if e.Kind == kind {
+		if e.Kind == kind && (len(who) == 0 || e.Who == who[0]) {
 			n++
 		}
 	}
